@@ -299,6 +299,10 @@ def random_typed(rng, depth):
         return {"k": "seq", "item": t}, [random_like(rng, t, depth - 1) for _ in range(rng.below(3))]
     if k in (9, 10):
         kt = rng.choice([{"k": "i32"}, {"k": "i64"}, {"k": "bool"}, {"k": "f64"}, {"k": "uuid"}, {"k": "str"}, {"k": "u64"}])
+        if rng.chance(1, 4):
+            kt = {"k": "newtype_struct", "item": kt}          # an alias as key type
+        elif rng.chance(1, 6):
+            kt = {"k": "enum", "variants": [{"form": "unit"}, {"form": "unit"}]}       # an enum as key type ("A" / "B")
         vt, _ = random_typed(rng, depth - 1)
         doc = {}
         for _ in range(rng.below(3)):
@@ -322,6 +326,10 @@ def random_typed(rng, depth):
 def random_like(rng, t, depth):
     """a random document of type t"""
     k = t["k"]
+    if k == "newtype_struct":
+        return random_like(rng, t["item"], depth)
+    if k == "enum":
+        return rng.choice(["A", "B"])
     if k == "f64":
         return rng.choice(["NaN", "Infinity", "-Infinity", 1.5, -2.25, 0.1])
     if k == "bytes":
